@@ -13,6 +13,8 @@ import (
 
 	"github.com/friendsofgo/errors"
 	"github.com/gofrs/uuid"
+	"github.com/taskctl/taskctl/pkg/scheduler"
+	"github.com/taskctl/taskctl/pkg/variables"
 
 	"github.com/Flowpack/prunner/definition"
 	"github.com/Flowpack/prunner/store"
@@ -495,7 +497,7 @@ func VerifC13Locks() {
 		verifTrackAllow("immutable:" + f)
 	}
 
-	op := verifChoose("op", 12)
+	op := verifChoose("op", 13)
 	// common prefix: j1 runs and finishes, j2 runs, j3 waits
 	sched := func() *PipelineJob {
 		verifTrackRefresh()
@@ -557,6 +559,12 @@ func VerifC13Locks() {
 	case 10:
 		verifEvent("op StartDelayedJob")
 		r.StartDelayedJob(w.jobs[3].id)
+	case 12:
+		verifEvent("op HandleStageChange")
+		vj := w.jobs[2]
+		st := &scheduler.Stage{Name: vj.job.Tasks[0].Name, Variables: variables.FromMap(map[string]string{taskctl.JobIDVariableName: vj.id.String()})}
+		st.UpdateStatus(scheduler.StatusRunning)
+		r.HandleStageChange(st)
 	case 11:
 		verifEvent("op Shutdown (idle runner)")
 		ret(w.jobs[2])
